@@ -162,6 +162,7 @@ class Interp:
         self.dynamic_enums: Dict[str, str] = {}
         self.overrides: Dict[str, Any] = {"HAS_CGRANGES": False}
         self.trace_calls: List[str] = []
+        self._statics: Dict[int, Any] = {}
 
     # ---- enums --------------------------------------------------------------------
     def enum(self, cls_name) -> Dict[str, EnumVal]:
@@ -319,7 +320,7 @@ class Interp:
             if self.repo.has_cls(obj.cls_name):
                 v = self.repo.lookup_attr(self.repo.cls(obj.cls_name), name)
                 if v is not None:
-                    return self.eval(v, {}, func, depth)
+                    return self.static_value(v, func, depth)
             raise Raised("AttributeError", f"{obj.cls_name}.{name}")
         if isinstance(obj, ClassTok):
             if self.is_enum_class(obj.name):
@@ -346,7 +347,7 @@ class Interp:
                     return ("bound", m, None if m.is_static else obj)
                 v = self.repo.lookup_attr(c, name)
                 if v is not None:
-                    return self.eval(v, {}, func, depth)
+                    return self.static_value(v, func, depth)
             raise Uninterpretable(f"class attribute {obj.name}.{name}")
         if obj is None:
             raise Raised("AttributeError", f"NoneType.{name}")
@@ -796,6 +797,17 @@ class Interp:
             return True
         return a == b
 
+    def static_value(self, node, func, depth):
+        """value of a module-level / class-level assignment: evaluated once per interpreter and then shared, as in
+        Python - a mutable class attribute or module global used as a cache keeps its contents between calls"""
+        key = id(node)
+        hit = self._statics.get(key)
+        if hit is not None and hit[0] is node:
+            return hit[1]
+        v = self.eval(node, {}, func, depth)
+        self._statics[key] = (node, v)
+        return v
+
     def eval(self, n, env, func, depth=0):
         self.steps += 1
         t = type(n)
@@ -816,7 +828,7 @@ class Interp:
             if mod is not None and n.id in mod.funcs:
                 return ("bound", mod.funcs[n.id], None)
             if mod is not None and n.id in mod.assigns:
-                return self.eval(mod.assigns[n.id], {}, func, depth)
+                return self.static_value(mod.assigns[n.id], func, depth)
             if mod is not None and n.id in mod.imports and mod.imports[n.id][0] in ("re", "math", "hashlib", "itertools", "string") \
                     and mod.imports[n.id][1] is None:
                 return ("pymodule", mod.imports[n.id][0])
